@@ -920,6 +920,11 @@ func (p *Printer) arithmExprRecurse(expr ArithmExpr, compact, spacePlusMinus boo
 		if compact {
 			p.arithmExprRecurse(expr.X, compact, spacePlusMinus)
 			p.w.WriteString(expr.Op.String())
+			if (expr.Op == Add && startsWithUnary(expr.Y, Plus, Inc)) ||
+				(expr.Op == Sub && startsWithUnary(expr.Y, Minus, Dec)) {
+				// "1 + +x" must not become "1++x"
+				p.space()
+			}
 			p.arithmExprRecurse(expr.Y, compact, false)
 		} else {
 			p.arithmExprRecurse(expr.X, compact, spacePlusMinus)
@@ -937,11 +942,16 @@ func (p *Printer) arithmExprRecurse(expr ArithmExpr, compact, spacePlusMinus boo
 		} else {
 			if spacePlusMinus {
 				switch expr.Op {
-				case Plus, Minus:
+				case Plus, Minus, Inc, Dec:
 					p.space()
 				}
 			}
 			p.w.WriteString(expr.Op.String())
+			if (expr.Op == Plus && startsWithUnary(expr.X, Plus, Inc)) ||
+				(expr.Op == Minus && startsWithUnary(expr.X, Minus, Dec)) {
+				// "- -x" must not become "--x"
+				p.space()
+			}
 			if expr.Op == Not && !compact {
 				// "!" followed by a word triggers history expansion
 				// in interactive shells; a space prevents that.
@@ -961,6 +971,21 @@ func (p *Printer) arithmExprRecurse(expr ArithmExpr, compact, spacePlusMinus boo
 			p.arithmExprRecurse(expr.X, compact, false)
 		}
 	}
+}
+
+// startsWithUnary reports whether an arithmetic expression begins with
+// either of the given unary operators.
+func startsWithUnary(expr ArithmExpr, op1, op2 UnAritOperator) bool {
+	switch expr := expr.(type) {
+	case *BinaryArithm:
+		return startsWithUnary(expr.X, op1, op2)
+	case *UnaryArithm:
+		if expr.Post {
+			return startsWithUnary(expr.X, op1, op2)
+		}
+		return expr.Op == op1 || expr.Op == op2
+	}
+	return false
 }
 
 func (p *Printer) testExpr(expr TestExpr) {
